@@ -55,6 +55,11 @@ def data_arrays(draw, dtype=None, with_bad=True):
         else:
             el = st.integers(info.max - 30, info.max)
     flat = draw(st.lists(el, min_size=n, max_size=n))
+    if draw(st.integers(0, 5)) == 0:
+        # sparse / heavily tied data (counting frames that are mostly one value): interval limits may coincide
+        base = flat[0] if (isinstance(flat[0], int) or math.isfinite(flat[0])) else (0 if dtype not in FLOAT_DT else 0.0)
+        keep = draw(st.lists(st.booleans(), min_size=n, max_size=n))
+        flat = [v if (k and i % 4 == 0) or not (isinstance(v, int) or math.isfinite(v)) else base for i, (v, k) in enumerate(zip(flat, keep))]
     # construction, not rejection: force two distinct finite values
     fin = [v for v in flat if isinstance(v, int) or math.isfinite(v)]
     if len(set(fin)) < 2:
@@ -111,12 +116,15 @@ def stretches(draw):
 
 @st.composite
 def norm_cases(draw):
-    via = draw(st.sampled_from(["direct", "data", "data", "preset"]))
+    via = draw(st.sampled_from(["direct", "data", "data", "preset", "imshow"]))
     x = draw(data_arrays())
     case = {"kind": "norm", "via": via, "x": x}
     if via == "preset":
         case["preset"] = draw(st.sampled_from(PRESETS))
     else:
+        if via == "imshow":
+            # the norm object is handed to matplotlib first (imshow autoscales vmin/vmax on it), then used
+            case["mpl"] = draw(st.sampled_from(["imshow", "imshow+colorbar", "autoscale_None"]))
         iv = draw(intervals())
         if iv["type"] == "manual" and (iv["vmin"] is None) != (iv["vmax"] is None):
             # an interval with lower limit >= upper limit is not a claimed configuration: move the
@@ -288,6 +296,21 @@ def _judge_output(case, x, y, lims, eps, what, frozen_norm=None, impl_lims=None,
             raise core.Violation("%s: limits %r map to %r, expected (0, 1)" % (what, impl_lims, yl.tolist()), case)
 
 
+def _through_matplotlib(norm, x, how):
+    """What a plotting call does with a Normalize object before any pixel is mapped."""
+    from matplotlib.figure import Figure
+
+    img = np.ma.masked_invalid(np.asarray(x, dtype=np.float64)).reshape(-1, 1) if x.ndim != 2 else np.ma.masked_invalid(np.asarray(x, dtype=np.float64))
+    if how == "autoscale_None":
+        norm.autoscale_None(img)
+        return
+    fig = Figure()
+    ax = fig.subplots()
+    im = ax.imshow(img, norm=norm)
+    if how == "imshow+colorbar":
+        fig.colorbar(im, ax=ax)
+
+
 def check(ctx, case):
     cn = _q()
     if case["kind"] == "stretch":
@@ -351,9 +374,11 @@ def check(ctx, case):
 
     eps = _eps(x.dtype, kw)
     xin = x.copy()
-    if via == "direct":
+    if via in ("direct", "imshow"):
         with ctx.sut(case, "CustomNormalization(...)(x)"):
             norm = cn.CustomNormalization(**kw)
+            if via == "imshow":
+                _through_matplotlib(norm, x, case["mpl"])
             il = norm.interval.get_limits(x)
             y = norm(x)
         _judge_limits(case, x, lims, il, "interval.get_limits(x)")
